@@ -78,7 +78,9 @@ type caseData struct {
 	Procs   int `json:"procs,omitempty"` // GOMAXPROCS of the worker (0: default)
 	// Reuse: "" = one risor.Eval on a new VM; else the name of a reuseForm: the workload is a later
 	// invocation on a VM that was already run with the same context
-	Reuse  string `json:"reuse,omitempty"`
+	Reuse string `json:"reuse,omitempty"`
+	// Ctx: "" = context.WithCancel / context.WithTimeout of Background; else the name of a ctxKind
+	Ctx    string `json:"ctx,omitempty"`
 	Src    string `json:"src"`
 	Repeat int    `json:"repeat,omitempty"` // confirmation / replay: run this many times
 }
@@ -99,7 +101,11 @@ func (c *caseData) shapeTag() string {
 	if c.Tail == "end" {
 		t += ";end"
 	}
-	return t + c.reuseTag()
+	t += c.reuseTag()
+	if c.Ctx != "" {
+		t += "%" + c.Ctx
+	}
+	return t
 }
 
 func (c *caseData) reuseTag() string {
@@ -132,6 +138,7 @@ type obs struct {
 	ErrNil      bool    `json:"err_nil"`
 	ErrIs       bool    `json:"err_is"`
 	ErrText     string  `json:"err_text"`
+	ErrIsCause  bool    `json:"err_is_cause,omitempty"` // the error is the cause the host recorded, not ctx.Err()
 	CtxErr      string  `json:"ctx_err"`
 	Value       string  `json:"value"`
 	CancelTick  int64   `json:"cancel_tick"` // ticks made before the cancellation (-1: never cancelled)
@@ -197,6 +204,131 @@ func compileWith(ctx context.Context, cfg *risor.Config, src string) (*compiler.
 }
 
 type ctxKey struct{}
+
+// Context kinds. The oracle is always about the context that is handed to the evaluation: the returned
+// error must satisfy errors.Is(err, ctx.Err()) (Canceled or DeadlineExceeded, as that context says),
+// whatever cause the host has recorded and however the context was derived.
+type ctxKind struct {
+	Name string
+	Mode string // cancel | deadline
+	What string
+}
+
+var ctxKinds = []ctxKind{
+	{"cancel-cause", "cancel", "context.WithCancelCause(bg), cancelled with cause errHost"},
+	{"parent-cause-child", "cancel", "WithCancel(WithValue(parent)) where parent = WithCancelCause(bg) is cancelled with cause errHost"},
+	{"custom", "cancel", "a context.Context implemented by the host (own Done channel, Err = context.Canceled)"},
+	{"custom-child", "cancel", "context.WithCancel(host-implemented context); the host context is cancelled"},
+	{"afterfunc-cause", "cancel", "child = WithCancelCause(bg), cancelled by context.AfterFunc(parent, ...) with the parent's cause when the parent is cancelled with errHost"},
+	{"deadline", "deadline", "context.WithDeadline(bg, now+d)"},
+	{"timeout-cause", "deadline", "context.WithTimeoutCause(bg, d, errHost)"},
+	{"deadline-cause", "deadline", "context.WithDeadlineCause(bg, now+d, errHost)"},
+	{"parent-timeout-cause-child", "deadline", "WithCancel(WithValue(parent)) where parent = context.WithTimeoutCause(bg, d, errHost)"},
+}
+
+func ctxKindByName(n string) *ctxKind {
+	for i := range ctxKinds {
+		if ctxKinds[i].Name == n {
+			return &ctxKinds[i]
+		}
+	}
+	return nil
+}
+
+var errHost = errors.New("host is shutting down")
+
+// hostCtx is a context implemented outside the standard library
+type hostCtx struct {
+	done chan struct{}
+	mu   sync.Mutex
+	err  error
+}
+
+func (h *hostCtx) Deadline() (time.Time, bool) { return time.Time{}, false }
+func (h *hostCtx) Done() <-chan struct{}       { return h.done }
+func (h *hostCtx) Value(any) any               { return nil }
+func (h *hostCtx) Err() error {
+	h.mu.Lock()
+	defer h.mu.Unlock()
+	return h.err
+}
+func (h *hostCtx) cancel() {
+	h.mu.Lock()
+	if h.err == nil {
+		h.err = context.Canceled
+		close(h.done)
+	}
+	h.mu.Unlock()
+}
+
+// makeContext builds the context of a case: ctx is what the evaluation gets, cancel carries out the
+// cancellation (cancel mode; it returns when ctx is done), release frees everything at the end.
+func makeContext(c *caseData) (ctx context.Context, cancel func(), release func()) {
+	bg := context.Background()
+	d := time.Duration(c.DelayUS) * time.Microsecond
+	var rel []func()
+	release = func() {
+		for _, f := range rel {
+			f()
+		}
+	}
+	switch c.Ctx {
+	case "cancel-cause":
+		x, cc := context.WithCancelCause(bg)
+		return x, func() { cc(errHost) }, release
+	case "parent-cause-child":
+		p, pc := context.WithCancelCause(bg)
+		x, xc := context.WithCancel(context.WithValue(p, ctxKey{}, 1))
+		rel = append(rel, xc)
+		return x, func() { pc(errHost) }, release
+	case "custom":
+		h := &hostCtx{done: make(chan struct{})}
+		return h, h.cancel, release
+	case "custom-child":
+		h := &hostCtx{done: make(chan struct{})}
+		x, xc := context.WithCancel(h)
+		rel = append(rel, xc, h.cancel)
+		return x, func() {
+			h.cancel()
+			select { // the standard library forwards the cancellation from another goroutine
+			case <-x.Done():
+			case <-time.After(5 * time.Second):
+			}
+		}, release
+	case "afterfunc-cause":
+		p, pc := context.WithCancelCause(bg)
+		x, xc := context.WithCancelCause(bg)
+		stop := context.AfterFunc(p, func() { xc(context.Cause(p)) })
+		rel = append(rel, func() { stop(); xc(nil); pc(nil) })
+		return x, func() {
+			pc(errHost)
+			select {
+			case <-x.Done():
+			case <-time.After(5 * time.Second):
+			}
+		}, release
+	case "deadline":
+		x, xc := context.WithDeadline(bg, time.Now().Add(d))
+		return x, xc, release
+	case "timeout-cause":
+		x, xc := context.WithTimeoutCause(bg, d, errHost)
+		return x, xc, release
+	case "deadline-cause":
+		x, xc := context.WithDeadlineCause(bg, time.Now().Add(d), errHost)
+		return x, xc, release
+	case "parent-timeout-cause-child":
+		p, pc := context.WithTimeoutCause(bg, d, errHost)
+		x, xc := context.WithCancel(context.WithValue(p, ctxKey{}, 1))
+		rel = append(rel, pc)
+		return x, xc, release
+	}
+	if c.Mode == "deadline" {
+		x, xc := context.WithTimeout(bg, d)
+		return x, xc, release
+	}
+	x, xc := context.WithCancel(bg)
+	return x, xc, release
+}
 
 const endedEarly = "the context ended before the workload started"
 
@@ -351,7 +483,7 @@ func runCase(c *caseData) (o obs) {
 	var parkOnce sync.Once
 
 	var ctx context.Context
-	var cancel context.CancelFunc
+	var cancel func()
 	markCancel := func(n int64) {
 		if cancelTick.CompareAndSwap(-1, n) {
 			cancelAt.Store(time.Now().UnixNano())
@@ -417,12 +549,12 @@ func runCase(c *caseData) (o obs) {
 	runtime.GC()
 	o.Gor0 = runtime.NumGoroutine()
 	t0 := time.Now()
-	if c.Mode == "deadline" {
-		ctx, cancel = context.WithTimeout(context.Background(), time.Duration(c.DelayUS)*time.Microsecond)
-	} else {
-		ctx, cancel = context.WithCancel(context.Background())
-	}
-	defer cancel()
+	var releaseCtx func()
+	ctx, cancel, releaseCtx = makeContext(c)
+	defer func() {
+		cancel()
+		releaseCtx()
+	}()
 
 	done := make(chan evalResult, 1)
 	go func() {
@@ -509,6 +641,9 @@ func runCase(c *caseData) (o obs) {
 	} else {
 		o.ErrText = mon.Truncate(r.err.Error(), 300)
 		o.ErrIs = ctx.Err() != nil && errors.Is(r.err, ctx.Err())
+		if cause := context.Cause(ctx); cause != nil && cause != ctx.Err() && errors.Is(r.err, cause) {
+			o.ErrIsCause = true
+		}
 	}
 	// after the return: the counter must stop. Settled: two consecutive intervals without an advance.
 	// Running: the counter advanced in settleMax consecutive intervals.
@@ -560,6 +695,9 @@ func judge(c *caseData, o *obs) []verdict {
 	if rf := reuseByName(c.Reuse); rf != nil {
 		how = "VM reused with ONE context: " + rf.What
 	}
+	if ck := ctxKindByName(c.Ctx); ck != nil {
+		how += "\ncontext given to the evaluation: " + ck.What
+	}
 	head := fmt.Sprintf("shape %s, spawn nesting %s, instant %s, mode %s, GOMAXPROCS %d\n%s\nprogram:\n%s\n", c.shapeTag(), c.nesting(), c.instant(), c.Mode, c.Procs, how, indent(c.Src))
 	if o.Early {
 		return nil
@@ -571,6 +709,9 @@ func judge(c *caseData, o *obs) []verdict {
 		tag := c.shapeTag()
 		if len(c.Chain) > 0 {
 			tag = "recv-op" + c.reuseTag() // the main program of a nested case has started the goroutines and blocks in a receive
+			if c.Ctx != "" {
+				tag += "%" + c.Ctx
+			}
 		}
 		return []verdict{{"no-return:" + tag, head + fmt.Sprintf("risor.Eval had not returned %v after the start (context error by then: %q, %d ticks before the cancellation, %d ticks in total)", watchdog, o.CtxErr, o.CancelTick, o.AtReturn)}}
 	}
@@ -591,6 +732,8 @@ func judge(c *caseData, o *obs) []verdict {
 		switch {
 		case o.ErrNil:
 			sym = "no-error"
+		case o.ErrIsCause:
+			sym = "context-cause-instead-of-context-error"
 		case o.ErrText == o.CtxErr:
 			sym = "unwrapped-same-text"
 		case o.CtxErr != "" && strings.Contains(o.ErrText, o.CtxErr):
@@ -602,9 +745,15 @@ func judge(c *caseData, o *obs) []verdict {
 		}
 		// the tail variant only matters when the program ended "normally": an error of the wrong kind
 		// comes out of the shape itself whatever follows it
-		tag := c.Shape + c.reuseTag()
-		if o.ErrNil {
-			tag = c.shapeTag()
+		tag := c.Shape
+		if len(c.Chain) > 0 {
+			tag = "recv-op" // what returns the error is the main program of a nested case: a blocked receive
+		} else if o.ErrNil && c.Tail == "end" {
+			tag += ";end"
+		}
+		tag += c.reuseTag()
+		if c.Ctx != "" {
+			tag += "%" + c.Ctx
 		}
 		vs = append(vs, verdict{"wrong-error:" + tag + ":" + sym, head + fmt.Sprintf("the context ended with %q after %d ticks (parked=%v) while the workload was still running; risor.Eval returned %s", o.CtxErr, o.CancelTick, o.Parked, got)})
 	}
@@ -787,6 +936,58 @@ func plan(d *mon.Driver) []caseData {
 			ins := instantsFor(sh)
 			chs := chainsOfDepth(r.Range(1, 2))
 			cs = append(cs, mkReuse(rf, sh, "loop", chs[r.Intn(len(chs))], mon.Pick(r, []string{"exit", "loop"}), ins[r.Intn(len(ins))]))
+		}
+	}
+	// context kinds: causes, deadlines with causes, derived and host-implemented contexts
+	insOf := func(sh *shape, mode string) []instant {
+		var out []instant
+		for _, in := range instantsFor(sh) {
+			if in.Mode == mode {
+				out = append(out, in)
+			}
+		}
+		return out
+	}
+	for ki := range ctxKinds {
+		ck := &ctxKinds[ki]
+		add := func(sh *shape, tail string, chain []string, in instant) {
+			c := mk(sh, tail, chain, "exit", in, 0)
+			c.Ctx = ck.Name
+			cs = append(cs, c)
+		}
+		for i := range shapes {
+			sh := &shapes[i]
+			ins := insOf(sh, ck.Mode)
+			if len(ins) == 0 {
+				continue
+			}
+			if d.Thorough() {
+				tails := []string{"loop", "end"}
+				for _, t := range tails {
+					for j, in := range ins {
+						if j < 3 {
+							add(sh, t, nil, in)
+						}
+					}
+				}
+				for _, f := range spawnForms {
+					add(sh, "loop", []string{f}, ins[r.Intn(len(ins))])
+				}
+				continue
+			}
+			// quick: every blocking shape (where the context's error comes out of the blocking
+			// primitive itself), a sample of the ticking ones
+			if sh.Kind == "park" || r.Chance(1, 6) {
+				add(sh, mon.Pick(r, []string{"loop", "end"}), nil, ins[r.Intn(len(ins))])
+			}
+		}
+		if !d.Thorough() {
+			for j := 0; j < 3; j++ {
+				sh := &shapes[r.Intn(len(shapes))]
+				if ins := insOf(sh, ck.Mode); len(ins) > 0 {
+					add(sh, "loop", []string{mon.Pick(r, spawnForms)}, ins[r.Intn(len(ins))])
+				}
+			}
 		}
 	}
 	// one processor: the watcher goroutine only runs when the evaluating goroutine is preempted or yields
